@@ -9,9 +9,11 @@ import (
 func TestWorker(t *testing.T) {
 	sim.WorkerMain(t, map[string]sim.Harness{
 		"C08": C08,
+		"C09": C09RPC,
 		"C10": C10,
 	}, map[string]sim.Options{
 		"C08": {PanicIsViolation: true},
+		"C09": {PanicIsViolation: true},
 		"C10": {PanicIsViolation: true},
 	})
 }
